@@ -66,6 +66,7 @@ Record site := {
   s_pkg : string;        (* package path relative to the module *)
   s_func : string;       (* enclosing function ("Recv.Method") or "var:<name>" *)
   s_ord : nat;           (* ordinal of the site inside that function *)
+  s_maptype : string;    (* static type of the ranged expression, package-qualified *)
   s_callers : nat;       (* static call sites of the enclosing function in non-test goflow code *)
   s_effects : list effect
 }.
@@ -141,14 +142,19 @@ Inductive reason :=
                           name, parser outside the module) was reviewed: its result is a function of its arguments and it writes
                           nothing that outlives the call; the body is then an accepted body *).
 
+(* An entry is keyed STRUCTURALLY: package, static type of the ranged map, and the exact effect descriptor it was
+   reviewed for.  The function name and ordinal are kept for the reader only: a pure refactor that moves the loop
+   into a helper of the same package, or renames the function, keeps the classification; a change of what the loop
+   does (another effect kind) or of what it ranges over does not. *)
 Record exception_entry := {
   x_pkg : string; x_func : string; x_ord : nat;
+  x_maptype : string;
   x_effects : list effect;     (* the exact descriptor the entry was reviewed for *)
   x_reason : reason
 }.
 
 Definition site_matches (s : site) (x : exception_entry) : bool :=
-  String.eqb (s_pkg s) (x_pkg x) && String.eqb (s_func s) (x_func x) && Nat.eqb (s_ord s) (x_ord x)
+  String.eqb (s_pkg s) (x_pkg x) && String.eqb (s_maptype s) (x_maptype x)
   && effects_eqb (s_effects s) (x_effects x)
   && match x_reason x with RNoCaller => Nat.eqb (s_callers s) 0 | _ => true end.
 
